@@ -41,6 +41,7 @@ Everything lives in `namespace BiotiteModel.C08`.
   `tracesLin mode M g a b V mx`, `localStarts`, `tracesLocalLin M g a b V mx` — model of `get_trace_linear` + `follow_trace` (theorems `C08_traces_*`)
 * affine traceback: `ANode`, `followG next mx fuel s suffix c`, `nextAff mode M go ge a b T`, `startsAff`,
   `tracesAff mode M go ge a b T mx`, `affLookup`
+* `alignOptimalModel mode gap M a b mx : Int × List Aln` — the whole model (headline theorems `C08_align_optimal_*`)
 * `checkAll a b M gap mode maxNumber traces score : Bool`  all of the above for every trace, plus
   pairwise distinctness of the non-empty traces and `traces.length ≤ maxNumber`.
 
@@ -624,6 +625,18 @@ def tracesAff (mode : Mode) (M : Mat) (go ge : Int) (a b : Seq) (T : Nat → Nat
     (followG (nextAff mode M go ge a b T) mx (s.1.1 + s.1.2 + 1) s [] 1).1).take mx
 
 def affLookup (tbl : List (List AffCell)) (i j : Nat) : AffCell := (tbl.getD i []).getD j ⟨none, none, none⟩
+
+/-- The model of `align_optimal`: table fill, reported score read off the table, start selection, traceback and
+the final `[:max_number]` truncation.  Returns (reported score, returned alignments). -/
+def alignOptimalModel (mode : Mode) (gap : Gap) (M : Mat) (a b : Seq) (mx : Nat) : Int × List Aln :=
+  match gap with
+  | .lin g =>
+    (optLinT mode M g a b,
+     match mode with
+     | .local => tracesLocalLin M g a b (tableLookup (fillLin .local M g a b)) mx
+     | _ => tracesLin mode M g a b (tableLookup (fillLin mode M g a b)) mx)
+  | .aff go ge =>
+    (optAffT mode M go ge a b, tracesAff mode M go ge a b (affLookup (fillAff mode M go ge a b)) mx)
 
 /-- `align_optimal` with an affine penalty, `local=False` and an empty sequence raises IndexError
 (`trace_table[0, 1] = …` / `trace_table[1, 0] = …` on a table with a single column / row): known finding. -/
